@@ -352,7 +352,7 @@ def check(tier):
     chk = core.Check("C12", tier)
     chk.obligations(THEOREMS)
     rnd = core.rng("C12")
-    nscripts = {"quick": 30, "thorough": 500}[tier]
+    nscripts = {"quick": 90, "thorough": 500}[tier]
     scripts, opsets = [], []
     for _ in range(nscripts):
         s, o = gen_script(rnd, tier, cmpx=True)
